@@ -44,6 +44,27 @@ func (s *SubscriptionService) DeleteSubscription(id uint32) {
 
 }
 
+// Limits of the publishing interval in milliseconds. The subscription's ticker is created from the
+// revised interval and time.NewTicker panics for a duration that is not positive.
+const (
+	minPublishingInterval = 1.0
+	maxPublishingInterval = 24 * 60 * 60 * 1000.0
+)
+
+// revisePublishingInterval returns the interval the server will use for the interval a client asked
+// for: the request is the client's to choose, so zero ("as fast as possible"), negative values, NaN
+// and absurdly long intervals are revised to the nearest supported value (Part 4, 5.13.2.2).
+func revisePublishingInterval(requested float64) float64 {
+	switch {
+	case requested >= minPublishingInterval && requested <= maxPublishingInterval:
+		return requested
+	case requested > maxPublishingInterval:
+		return maxPublishingInterval
+	default: // below the minimum, negative or NaN
+		return minPublishingInterval
+	}
+}
+
 // https://reference.opcfoundation.org/Core/Part4/v105/docs/5.13.2
 func (s *SubscriptionService) CreateSubscription(sc *uasc.SecureChannel, r ua.Request, reqID uint32) (ua.Response, error) {
 	if s.srv.cfg.logger != nil {
@@ -71,7 +92,7 @@ func (s *SubscriptionService) CreateSubscription(sc *uasc.SecureChannel, r ua.Re
 	sub.Session = s.srv.Session(r.Header())
 	sub.Channel = sc
 	sub.ID = newsubid
-	sub.RevisedPublishingInterval = req.RequestedPublishingInterval
+	sub.RevisedPublishingInterval = revisePublishingInterval(req.RequestedPublishingInterval)
 	sub.RevisedLifetimeCount = req.RequestedLifetimeCount
 	sub.RevisedMaxKeepAliveCount = req.RequestedMaxKeepAliveCount
 
@@ -89,7 +110,7 @@ func (s *SubscriptionService) CreateSubscription(sc *uasc.SecureChannel, r ua.Re
 			AdditionalHeader:   ua.NewExtensionObject(nil),
 		},
 		SubscriptionID:            uint32(newsubid),
-		RevisedPublishingInterval: req.RequestedPublishingInterval,
+		RevisedPublishingInterval: sub.RevisedPublishingInterval,
 		RevisedLifetimeCount:      req.RequestedLifetimeCount,
 		RevisedMaxKeepAliveCount:  req.RequestedMaxKeepAliveCount,
 	}
